@@ -90,12 +90,39 @@ def unlocked_closures(P, L, body):
     return out
 
 
+# ------------------------------------------------------------------------------------------- closures that run at their call site
+SYNC_CLOSURE_TAKERS = {"then", "map", "map_or", "map_or_else", "and_then", "or_else", "unwrap_or_else", "ok_or_else", "is_some_and",
+                       "is_ok_and", "is_err_and", "map_err", "inspect", "inspect_err", "filter"}
+
+
+def sync_closure_sites(P, b, names):
+    """call sites in b of a bool / Option / Result combinator that is handed a closure WRITTEN AT THAT SITE whose body calls one of
+    `names`: the closure runs before the combinator returns, so for rules that only ask WHERE a call happens
+    (`cond.then(|| w.get_operation_result().unwrap())` for `if cond { w.get_operation_result().unwrap() }`) the combinator's site
+    stands for the call."""
+    out = []
+    for cs in b.calls():
+        nm = cs.name or ""
+        if b.is_cleanup(cs.bb) or cs.t.get("local") or nm.rsplit("::", 1)[-1] not in SYNC_CLOSURE_TAKERS or \
+                not (nm.startswith("std::option::Option") or nm.startswith("std::result::Result") or nm.startswith("std::bool::") or nm.startswith("core::bool::") or nm.startswith("bool::")):
+            continue
+        for a in cs.args[1:]:
+            for ao in origins(b, a):
+                cb = P.bodies.get(ao.name) if ao.kind == "agg" else None
+                if cb is not None and cb.kind == "closure" and any(c2.name in names and not cb.is_cleanup(c2.bb) for c2 in cb.calls()):
+                    out.append(cs)
+    return out
+
+
 # ------------------------------------------------------------------------------------------- LCK-1 / LCK-2
 SOURCES = {
     "sequence": [PREV_SEQ],
     "memtable": [MEMTABLE, LOAD_FULL],
     "version": [CUR_VERSION],
 }
+
+
+SYNC_COMBINATORS = {"map_or_else", "map_or", "unwrap_or_else", "map", "and_then", "or_else", "ok_or_else"}
 
 
 def lck_capture(P, R, L, rule, entries, need):
@@ -118,6 +145,15 @@ def lck_capture(P, R, L, rule, entries, need):
                                         and carries in b.local_ty(cs.dest["l"])
                                         and P.fn_reaches(cs.callee, names, sync_only=True)):
                     found.setdefault(kind, []).append(cs)
+                elif not cs.t.get("local") and (cs.name or "").rsplit("::", 1)[-1] in SYNC_COMBINATORS and \
+                        ((cs.name or "").startswith("std::option::Option") or (cs.name or "").startswith("std::result::Result")):
+                    # `opt.map_or_else(|| guard.version_set.get_prev_sequence_number(), ..)`: a closure written at the call site of an
+                    # Option / Result combinator runs before the combinator returns - the accessor is read at this site
+                    for a in cs.args[1:]:
+                        for ao in origins(b, a):
+                            if ao.kind == "agg" and ao.name in P.bodies and P.bodies[ao.name].kind == "closure" and \
+                                    any(c2.name in names and not P.bodies[ao.name].is_cleanup(c2.bb) for c2 in P.bodies[ao.name].calls()):
+                                found.setdefault(kind, []).append(cs)
         imm_blocks = sorted(field_reads(b, "maybe_immutable_memtable"))
         # ... or read by a helper that is handed the guard
         for cs in b.calls():
@@ -1380,6 +1416,30 @@ def ord7_smallest_snapshot(P, R, L, rule="ORD-7"):
             e_empty += t.ok_edges()
             e_nonempty += t.err_edges()
     seen_kinds = set()
+
+    def _closure_result(op):
+        for ao in origins(ct, op):
+            cb_ = P.bodies.get(ao.name) if ao.kind == "agg" else None
+            if cb_ is not None and cb_.kind == "closure":
+                return origins(cb_, {"l": 0, "p": []}, transparent=T2)
+        return None
+
+    def _then_else(o):
+        """(origins of the value chosen where the snapshot list is empty, ... where it is not) for
+        `snapshots.is_empty().then(<closure>).unwrap_or_else(<closure>)`; None for anything else"""
+        nm = o.name or ""
+        if not (nm.startswith("std::option::Option") and nm.endswith("::unwrap_or_else")) or len(o.site.args) != 2 or o.path:
+            return None
+        ro = origins(ct, o.site.args[0])
+        if len(ro) != 1 or ro[0].kind != "call" or ro[0].site is None or not ((ro[0].name or "").endswith("::then") and "bool" in (ro[0].name or "")):
+            return None
+        th = ro[0].site
+        co = origins(ct, th.args[0])
+        if not co or not all(x.kind == "call" and x.name == "snapshots::SnapshotList::is_empty" for x in co):
+            return None
+        a, b_ = _closure_result(th.args[1]), _closure_result(o.site.args[1])
+        return None if a is None or b_ is None else (a, b_)
+
     for n in news:
         os_ = origins(ct, n.args[1], transparent=T2)
         # each source of the value is judged where it is computed (the value may be selected into a local first)
@@ -1390,6 +1450,17 @@ def ord7_smallest_snapshot(P, R, L, rule="ORD-7"):
                 names.add("%s:%s" % (o.kind, o.name))
                 continue
             names.add(o.name)
+            te = _then_else(o)
+            if te is not None:
+                # `snapshots.is_empty().then(|| last).unwrap_or_else(|| oldest)`: the selection is in the Option, not in the CFG -
+                # the closure handed to `then` runs where the list is empty, the one handed to `unwrap_or_else` where it is not
+                r_empty, r_nonempty = te
+                if r_empty and all(x.kind == "call" and x.name == PREV_SEQ for x in r_empty) and \
+                        r_nonempty and all(x.kind == "call" and x.name == "snapshots::SnapshotList::oldest" for x in r_nonempty):
+                    seen_kinds |= {"oldest", "last"}
+                else:
+                    ok = False
+                continue
             if o.name == "snapshots::SnapshotList::oldest":
                 seen_kinds.add("oldest")
                 if not ct.must_pass(o.site.bb, through_edges=e_nonempty):
@@ -3806,6 +3877,20 @@ def src1_iterator_sources(P, R, L, rule="SRC-1"):
                 return origins(b, o.site.args[0]) if o.site is not None and o.site.args else []
             mem = [c for c in adds if fed_by(c, lambda o: o.name == "memtable::MemTable::iter" and any(x.kind == "call" and x.name == MEMTABLE for x in recv(o)))]
             imm = [c for c in adds if fed_by(c, lambda o: o.name == "memtable::MemTable::iter" and any("maybe_immutable_memtable" in x.path for x in recv(o)))]
+            def imm_map(o):
+                """`maybe_immutable_memtable.as_ref().map(|m| m.iter())`: Option::map keeps None-ness, the payload is the closure's result"""
+                if not ((o.name or "").startswith("std::option::Option") and (o.name or "").endswith("::map")) or o.site is None or len(o.site.args) != 2:
+                    return False
+                if not any("maybe_immutable_memtable" in x.path for x in recv(o)):
+                    return False
+                for ao in origins(b, o.site.args[1]):
+                    cb_ = P.bodies.get(ao.name) if ao.kind == "agg" else None
+                    if cb_ is not None and cb_.kind == "closure":
+                        return any(r.kind == "call" and r.name == "memtable::MemTable::iter" and r.site is not None and
+                                   any(x.kind == "param" and x.name == 2 for x in origins(cb_, r.site.args[0]))
+                                   for r in origins(cb_, {"l": 0, "p": []}))
+                return False
+            imm += [c for c in adds if c not in imm and fed_by(c, imm_map)]
             ver = [c for c in adds if fed_by(c, lambda o: o.name == "versioning::version::Version::get_representative_iterators")]
             ok_m = bool(mem) and b.must_pass(s0.bb, through_nodes=[c.bb for c in mem])
             ok_v = bool(ver) and b.must_pass(s0.bb, through_nodes=[c.bb for c in ver])
@@ -3819,7 +3904,7 @@ def src1_iterator_sources(P, R, L, rule="SRC-1"):
             for bb in range(b.n):
                 for st in b.blocks[bb]["stmts"]:
                     if st["k"] == "assign" and st["rv"]["k"] == "discr" and not st["pl"]["p"] and "Option<" in b.local_ty(st["rv"]["pl"]["l"]) and \
-                            any("maybe_immutable_memtable" in o.path for o in origins(b, {"k": "copy", "pl": st["rv"]["pl"]})):
+                            any("maybe_immutable_memtable" in o.path or (o.kind == "call" and imm_map(o)) for o in origins(b, {"k": "copy", "pl": st["rv"]["pl"]})):
                         for sb in _switches_on_local(b, st["pl"]["l"]):
                             none_edges.append((sb, switch_target(b.term(sb), 0)))
             ok_i = bool(imm) and bool(none_edges) and b.must_pass(s0.bb, through_nodes=[c.bb for c in imm], through_edges=none_edges)
